@@ -17,6 +17,30 @@ CHECKS = {
    category="exploration", design_ref="3/C05", technique="property-based testing (hypothesis): round trip generate->parse plus independent enumeration of L(G) up to a length bound",
    text="Words from Grammar.fuzz/Fandango.fuzz and ALL words of L(G) up to 6 characters / 4 bytes from an independent enumerator (capped per spec) must be accepted by Fandango.parse with an identical serialisation and a tree the reference accepts. Completeness is demanded for words with a greedy-regex derivation (the class named in the statement); the rest is counted as set aside.",
    note="Trusts vf/spec.py enumerator/recogniser; words longer than the bound and grammars with non-ASCII text inside binary specs are not generated."),
+ "C01": dict(
+   category="exploration", design_ref="3/C01", technique="property-based testing (hypothesis): independent derivation checker over Grammar.fuzz output and over every tree evaluated or emitted during generated evolutionary runs",
+   text="Every tree from Grammar.fuzz (all start symbols, node budgets 0..40) and every tree handed to Evaluator.evaluate_individual or emitted by Fandango.fuzz in generated runs (constraints chosen so that repair, mutation and crossover fire) is checked by a derivation checker and a recogniser that share no code with Fandango. Exploration: thousands of distinct trees per run; failures shrink to a small spec + settings.",
+   note="Trusts vf/spec.py; computed repetition counts are treated as constraints (C02); wraps Evaluator.evaluate_individual at run time (no source hook)."),
+ "C02": dict(
+   category="exploration", design_ref="3/C02", technique="property-based testing (hypothesis): generated constraint programs + search settings, emitted solutions re-evaluated by an independent constraint interpreter",
+   text="Emitted solutions of generated runs (constraints from the C07 program generator incl. raising atoms, given in the spec / constructor / extra_constraints, and computed repetitions) are re-evaluated on a plain snapshot by vf/refconstraint.py; computed bounds are recounted. Non-trivial runs are those whose constraints reject >= 30% of plain samples.",
+   note="Trusts vf/refconstraint.py; constraints whose two documented readings of and/or disagree are set aside and counted."),
+ "C03": dict(
+   category="exploration", design_ref="3/C03", technique="exhaustive enumeration of the (h, r) table for h, r <= 12 with hypothesis-generated mixes/orders per pair",
+   text="All 168 (hard, repetition-bound) count pairs up to 12 are enumerated; per pair generated constraint mixes and declaration orders; the satisfying tree is built by construction and a fresh Evaluator must yield it the first time; short fuzz runs must deliver the requested solutions.",
+   note="The tree satisfies every constraint by construction and by each constraint's own check(); thorough samples pairs up to 40."),
+ "C06": dict(
+   category="exploration", design_ref="3/C06", technique="property-based testing (hypothesis) with a deterministic step bound derived from a reference count of partial derivations; all strings up to length 3 per spec",
+   text="Termination is decided as a bounded-step safety property: parse states admitted/created are counted at Column.add / ParseState.__init__ and compared with 300 + 30*W, W = number of partial derivations of the input computed by the reference (finite for finitely ambiguous grammars). Grammar shapes named by the property are generated deliberately; infinitely ambiguous grammars and prefix mode on recursive grammars are known findings, classified by a reference analysis.",
+   note="Liveness is weakened to a step bound (max fraction of the bound used on terminating requests is reported, currently < 0.1); inputs <= 6 units; two open known findings."),
+ "C07": dict(
+   category="exploration", design_ref="3/C07", technique="property-based testing (hypothesis): generated constraint programs x trees against an independent interpreter of the documented semantics; lazy vs eager; API acceptance",
+   text="Constraint programs generated from a grammar of the constraint sub-language (selectors . .. [] slices |..| *, any/all, exists/forall, and/or, raising atoms, no-match selectors) are evaluated on generated trees by vf/refconstraint.py and by Fandango (check(), lazy check(), Fandango.parse acceptance).",
+   note="Constructs the documentation leaves undefined are not generated; cases where the two readings of and/or disagree are set aside and counted."),
+ "C13": dict(
+   category="exploration", design_ref="3/C13", technique="exhaustive enumeration of all 2^(n-1) fragmentations per word (n <= 7) over hypothesis-generated specs and words; metamorphic relation over cuts",
+   text="For generated specs and words (in and near the language) every composition into fragments is fed through IterativeParser.consume as packetparser does; the complete parses after the last fragment must equal the one-shot result; can_continue()==False is refuted by a concrete longer word of the enumerated language.",
+   note="One-shot parse is the reference (its soundness is C04); non-greedy regex words are excluded (open known finding)."),
 }
 NA = {}
 checks = []
